@@ -765,7 +765,7 @@ func main() {
 			}
 		}
 	}
-	nd := o.Count(150, 4000)
+	nd := o.Count(120, 4000)
 	qids := []uint16{0, 1, 0x00FF, 0x0100, 0x8000, 0xFFFF}
 	for i := 0; i < nd; i++ {
 		id := fmt.Sprintf("doq:gen:%d", i)
@@ -778,6 +778,11 @@ func main() {
 			qid = uint16(r.Intn(65536))
 		}
 		segs := genStream(r)
+		for j := range segs {
+			if quick && segs[j].kind == "frame" && segs[j].n > 10000 {
+				segs[j].n = 13 + segs[j].n%5000 // 64 KiB payloads are covered by the catalogue; they cost seconds inside Coq
+			}
+		}
 		if r.Chance(1, 3) {
 			// a frame cut short: a well-formed frame of which only a prefix arrives before FIN or a failure
 			n := r.Range(13, 300)
